@@ -6,27 +6,27 @@
 #include "vh.h"
 #include UNIT_H
 /* S_POut: f0 ok f1 id f2 count f3 capacity f4 last_usage f5 last_capacity f6 heap_table f7 allocs f8 max_request f9 maxPools f10 nullSlot f11 poolCap f12 initial */
-static int cap_ok(unsigned cap, unsigned I, unsigned M) { if (cap == M) return 1; for (unsigned k = 0; k < 10; k++) if (cap == (I << k)) return cap <= M; return 0; }
+static int cap_ok(unsigned cap, unsigned I, unsigned M) { if (cap == M || cap == I) return 1;   /* the inline table always has INITIAL entries, even when that exceeds maxPools */ for (unsigned k = 0; k < 10; k++) if (cap == (I << k)) return cap <= M; return 0; }
 void h_pool_alloc(void) {
   struct S_POut g; memset(&g, 0, sizeof g); w_pool_alloc(0, 1, 0, 0, 0, 0, &g);      /* read the geometry */
   const unsigned M = g.f9, C = g.f11, I = g.f12, NULLS = g.f10;
   unsigned count = vin_u8(), capacity = vin_u8(), lu = vin_u8(), lc = vin_u8(), fm = vin_u8() & 7;
-  VASSUME(I <= M);
-  VASSUME(cap_ok(capacity, I, M) && capacity >= I && count <= capacity);
+  VASSUME(cap_ok(capacity, I, M) && capacity >= I && count <= capacity && count <= M);
   unsigned heap = capacity > I;
-  if (count) { VASSUME(lc == 0 || lc == (count == M ? C - 1 : C)); VASSUME(lu <= lc); }
+  const unsigned LASTC = NULLS - (M - 1) * C;   /* the ids left for the last possible pool (C-1 when C divides 2^n) */
+  if (count) { VASSUME(lc == 0 || lc == (count == M ? LASTC : C)); VASSUME(lu <= lc); }
   struct S_POut o; memset(&o, 0, sizeof o);
   w_pool_alloc(count, capacity, lu, lc, heap, fm, &o);
   VOBS(o.f0); VOBS(o.f1); VOBS(o.f2); VOBS(o.f3);
   /* Inv is re-established */
   VASSERT(o.f2 <= M, "never more pools than maxPools (slot ids would wrap)");
-  VASSERT(o.f3 <= M && o.f3 >= I && cap_ok(o.f3, I, M), "pool-table capacity stays within maxPools");
+  VASSERT((o.f3 <= M || o.f3 == I) && o.f3 >= I && cap_ok(o.f3, I, M), "pool-table capacity stays within maxPools (or is the inline capacity)");
   VASSERT(o.f2 <= o.f3, "count <= capacity");
   VASSERT((o.f6 & 1) == (o.f3 > I) || fm, "the table moves to the heap exactly when it outgrows the inline pools");
   if (o.f0 & 1) {
     VASSERT(o.f1 != NULLS, "the NULL_SLOT id is never issued");
     VASSERT(o.f2 >= 1 && o.f4 >= 1 && o.f1 == (o.f2 - 1) * C + (o.f4 - 1), "slot id = pool index * pool capacity + index in pool, without wrap");
-    VASSERT(o.f5 == (o.f2 == M ? C - 1 : C), "the last possible pool is one slot short");
+    VASSERT(o.f5 == (o.f2 == M ? LASTC : C), "the last possible pool holds exactly the ids that are left below NULL_SLOT");
     if (count && lu < lc) { VASSERT(o.f2 == count && o.f7 == 0, "room in the last pool: no new pool, no allocator call"); VWITNESS("room"); }
     else { VASSERT(o.f2 == count + 1, "exactly one pool added"); if (o.f3 != capacity) VWITNESS("table-grew"); else VWITNESS("pool-added"); }
   } else {
@@ -41,4 +41,34 @@ void h_strnode(void) {
   VOBS(ok); VOBS(req); VOBS(stored);
   if (len > maxlen) { VASSERT(!ok && req == 0, "a length above the configured maximum is refused before any allocation"); VWITNESS("toolong"); }
   else { VASSERT(req == len + ovh, "requests exactly length + header + terminator"); if (ok) { VASSERT(stored == len, "length stored without narrowing loss"); VWITNESS("ok"); } }
+}
+
+void h_strnode_resize(void) {
+  uint64_t oldlen = vin_u8() % 8, newlen = vin_u64(); unsigned fm = vin_u8() & 1; uint64_t stored = 0; uint32_t frees = 0;
+  unsigned r = w_strnode_resize(oldlen, newlen, fm, &stored, &frees); uint64_t maxlen = w_strnode_maxlen();
+  VASSUME(r != 2);
+  if (r == 1) { VASSERT(stored == newlen && newlen <= maxlen && frees == 0, "resized: new length stored, nothing released"); VWITNESS("ok"); }
+  else { VASSERT(frees == 1, "a failed resize (length above the maximum, or allocator failure) releases the old node exactly once"); if (newlen > maxlen) VWITNESS("toolong"); else VWITNESS("allocfail"); }
+}
+void h_widths(void) { VASSERT(w_refs_width() == w_slotid_width(), "the reference counter is as wide as a slot id (it can count one reference per slot)"); VWITNESS("any"); }
+#ifndef HEAPT
+#define HEAPT 0
+#endif
+void h_pool_clear(void) {
+  struct S_POut g; memset(&g, 0, sizeof g); w_pool_clear(0, 1, 0, 0, &g); const unsigned M = g.f9, I = g.f12, NULLS = g.f10;
+  unsigned count = vin_u8(), capacity = vin_u8(), fl = vin_u8();
+  VASSUME(cap_ok(capacity, I, M) && capacity >= I && count <= capacity && count <= M && count <= 3);   /* the per-pool destroy loop is bounded to 3 pools here */
+  const unsigned heap = HEAPT; VASSUME(heap == (capacity > I));
+  struct S_POut o; memset(&o, 0, sizeof o); w_pool_clear(count, capacity, heap, fl, &o);
+  VASSERT(o.f2 == 0 && o.f1 == NULLS, "clear(): no pool left, free list empty");
+  VASSERT(!(o.f6 & 1) && o.f3 == I, "clear(): the table is the inline one again and its capacity is the inline capacity");
+  VASSERT(o.f7 == (heap ? 1u : 0u), "the heap table is released exactly once (pool blocks were not allocated in this state)");
+  if (heap) VWITNESS("heap"); else VWITNESS("inline");
+}
+void h_pool_swap(void) {
+  unsigned ca = vin_u8() % 3, cb = vin_u8() % 3, fa = vin_u8(), fb = vin_u8();
+  struct S_POut a, b; memset(&a, 0, sizeof a); memset(&b, 0, sizeof b); w_pool_swap(ca, fa, cb, fb, &a, &b);
+  VASSERT(a.f2 == cb && b.f2 == ca, "pool counts exchanged"); VASSERT(a.f1 == fb && b.f1 == fa, "free lists exchanged (released slots follow their pools)");
+  VASSERT(a.f4 == 20 && b.f4 == 10, "inline pool descriptors exchanged"); VASSERT(!(a.f6 & 1) && !(b.f6 & 1), "both still use their own inline table");
+  VWITNESS("any");
 }
